@@ -519,6 +519,9 @@ def check_C07(tier):
     if r.violated:
         rep.violation("specification-level: %s" % r.violated, {"errors": r.errors[:2]})
     nvalid = 0
+    last_ok = None
+    rng_t = random.Random(seed() + 707)
+    rng_t.shuffle(vectors)          # valid and invalid tables interleaved
     try:
         for v in vectors:
             t = v["table"]
@@ -532,6 +535,11 @@ def check_C07(tier):
                 rep.violation("set_semantic_constraints(%r) raised %s" % (t, type(e).__name__), {"table": t})
                 continue
             rep.traces += 1
+            if not acc and last_ok is not None:
+                if sf.get_semantic_constraints() != last_ok[0] or set(sf.get_semantic_robust_alphabet()) != last_ok[1]:
+                    rep.violation("after the rejected table %r the table / alphabet in force is not that of the last "
+                                  "accepted table %r" % (t, last_ok[0]), {"rejected": t, "last_accepted": last_ok[0]})
+                    sf.set_semantic_constraints(dict(last_ok[0]))
             if acc != v["valid"]:
                 rep.violation("table %r: library %s it, the specification %s it" % (
                     t, "accepts" if acc else "rejects", "accepts" if v["valid"] else "rejects"), {"table": t})
@@ -539,6 +547,7 @@ def check_C07(tier):
                 nvalid += 1
                 got = sf.get_semantic_robust_alphabet()
                 want = set(v["alphabet"])
+                last_ok = (dict(t), set(want))
                 if set(got) != want:
                     rep.violation("robust alphabet for %r: missing %s, extra %s" % (
                         t, sorted(want - set(got))[:5], sorted(set(got) - want)[:5]), {"table": t})
@@ -629,12 +638,28 @@ def check_C08(tier):
             rep.violation(msg, {"input": v["raw"]})
     for v in vectors[:: max(1, len(vectors) // 3)][:3]:
         rep.sample({"text": v["raw"], "spec_outcome": v["kind"]})
-    # symbol-level: symbols outside the grammar, legacy symbols, both flags
-    results, vecs = de.run_decoder_tlc("sym", DEC["bad"] + LEGACY[2:8], "default", 3 if quick else 4, emit=True, fastjit=quick)
-    add_results(rep, "symbols outside the grammar + legacy", results, vectors=len(vecs))
-    for v in vecs:
-        for msg, k in totality("".join(v["inp"])):
-            rep.violation(msg, {"input": "".join(v["inp"])})
+    # symbol-level: symbols outside the grammar, legacy symbols, zero-capacity and H-rich atoms, all flags,
+    # and the same inputs again after the constraint table has been switched (loose -> tight -> loose)
+    hrich = ["[C]", "[=C]", "[CH4]", "[NH4]", "[OH2]", "[NH3]", "[CH5]", "[Branch1]", "[=Branch1]", "[Ring1]", "[O]", ".", "[BH4]"]
+    sym_inputs = []
+    for nm, alpha, ml in (("bad+legacy", DEC["bad"] + LEGACY[2:8], 3 if quick else 4), ("caps", DEC["caps"], 3 if quick else 4),
+                          ("hrich", hrich, 4 if quick else 5), ("frag", DEC["frag"], 3 if quick else 4)):
+        results, vecs = de.run_decoder_tlc("sym_" + nm.replace("+", "_"), alpha, "default", ml, emit=True, fastjit=quick)
+        add_results(rep, "symbol level: " + nm, results, vectors=len(vecs))
+        sym_inputs += ["".join(v["inp"]) for v in vecs]
+    sym_inputs = sorted(set(sym_inputs))
+    rng0 = random.Random(seed() + 808)
+    if quick and len(sym_inputs) > 12000:
+        sym_inputs = rng0.sample(sym_inputs, 12000)
+    try:
+        for tab in ("hypervalent", "default", TABLES["tight"], TABLES["wide"], "octet_rule", "default"):
+            sf.set_semantic_constraints(tab if isinstance(tab, str) else dict(tab))
+            for s_ in sym_inputs:
+                for msg, k in totality(s_):
+                    rep.violation(msg + " [table %s, after earlier calls under other tables]" % tabname(tab),
+                                  {"input": s_, "table": tab})
+    finally:
+        sf.set_semantic_constraints("default")
     # fuzz: TLC judges the ASCII part (precise where well-formed), the harness only the exception type elsewhere
     rng = random.Random(seed() * 3 + 8)
     fuzz = []
